@@ -14,4 +14,12 @@ func registerSpecs() {
 		Assumptions: []string{"the peer answers cancel-*-forward requests (a connection that stays alive)", "liveness is judged only at quiescence: no task runnable, no timer pending"},
 		ChunkTimeout: 10 * time.Minute,
 	}
+	specs["C07"] = &spec{
+		Harness: "ckpt", Level: "exploration", QuickRuns: 40000, ThoroughRuns: 1500000, Chunk: 2500, EnumQuick: true, EnumThorough: true,
+		InstrPkgs: []string{},
+		Rule: "one case = one generated history of a checkpointing hashing process (writes 0..300 bytes, up to 8 checkpoints with storage faults lost/torn/flip/truncate/extend/wrong-kind/random, up to 4 crash+restore cycles, Sum probes) for one of 8 hash kinds (BLAKE2b 512/384/256/20/1, BLAKE2s-256, legacy Keccak-256/512); plus the enumerated sweep: every byte position of the marshaled state x all 256 values x 8 base states per kind. Non-trivial = at least one restore from a checkpoint happened (or a sweep case); distinct = distinct hash of the event/choice trace",
+		Real: []string{"blake2b, blake2s, sha3 legacy Keccak: New*, Write, Sum, Reset, MarshalBinary, UnmarshalBinary (uninstrumented working tree)"},
+		Stub: []string{"disk holding the checkpoint (simulated: durable/lost/torn/corrupted writes)", "process crash = discard the hash object, restart from the durable checkpoint"},
+		Assumptions: []string{"reference for transparency is an uninterrupted instance of the same implementation fed the same bytes (the property's own definition); digest correctness against RFC 7693/Keccak is C05/C08, not decided here", "the documented misuse panics 'Write after Read' / 'Sum after Read' of a Keccak state restored in squeezing direction are the API's defined behaviour, not counted as crashes"},
+	}
 }
